@@ -5,7 +5,7 @@ from harness import smlib as S
 from harness.common import pmap, lean_query, guard, VERIF, safe_judge
 from harness.c01 import chunks
 
-LEVEL = "translation_validation"
+LEVEL = "proof"
 ENTRY = "socialchoicekit.deterministic_matching.Irving.scf"
 
 
